@@ -927,6 +927,7 @@ impl OrdSpecImpl for Version { open spec fn obeys_cmp_spec() -> bool { true } op
         dsl.rewrites += ['R9 trait method body lifted to inherent fn display_fmt', "R10' %d write!(..) invocations -> verif_writeN (A16)" % n]
         g.emit('m_fmt', 'impl BoundSet {\n' + g.inj(dsl, 'BoundSet::display_fmt', 'm_fmt', dict(ret='r', contract='    requires bs_wf(*self),\n' + K.DISPLAY_CONTRACT.replace('        ensures', '    ensures'), entry=K.BS_FMT_HINT), make_pub=True) + '\n}')
     g.unit('BoundSet::display_fmt', u_display)
+    display_unit('Operation', RNG, K.DISPLAY_CONTRACT, hints=K.BS_FMT_HINT)
     display_unit('Range', RNG, K.DISPLAY_CONTRACT.replace('        ensures', '        requires rwf(*self),\n        ensures'), hints=K.RANGE_FMT_HINT, loops=K.RANGE_FMT_LOOPS)
     g.emit('m_c12', P('c12_props.rs'))
 
